@@ -15,6 +15,7 @@ package main
 import (
 	"fmt"
 	"strings"
+	"sync"
 )
 
 type sexp struct {
@@ -272,10 +273,23 @@ func normalizeForall(op string, bound []string, body string) string {
 	}
 	parts := []string{first}
 	for k := 1; k < n; k++ {
-		parts = append(parts, normalizeForallAt(op, bound, body, k))
+		c := normalizeForallAt(op, bound, body, k)
+		if t := parseSexp(c); t != nil {
+			copyMu.Lock()
+			triggerCopies[t.String()] = true
+			copyMu.Unlock()
+		}
+		parts = append(parts, c)
 	}
 	return and(parts...)
 }
+
+// triggerCopies: formulas that are equivalent re-statements (other trigger) of a sibling conjunct;
+// as goals they need not be proved again.
+var (
+	triggerCopies = map[string]bool{}
+	copyMu        sync.Mutex
+)
 
 // normalizeForallAt: skip selects which candidate defining read (counted over distinct index texts) is used.
 func normalizeForallAt(op string, bound []string, body string, skip int) string {
@@ -439,7 +453,15 @@ func splitGoal(goal string) []string {
 	conj = func(e *sexp) []*sexp {
 		if !e.isAtom() && e.head() == "and" {
 			var r []*sexp
-			for _, k := range e.kids[1:] {
+			for i, k := range e.kids[1:] {
+				if i > 0 {
+					copyMu.Lock()
+					isCopy := triggerCopies[k.String()]
+					copyMu.Unlock()
+					if isCopy {
+						continue
+					}
+				}
 				r = append(r, conj(k)...)
 			}
 			return r
